@@ -34,8 +34,9 @@ FLOORS = {
               'points': 3000, 'fresh_thread_ops': 22, 'stress_rounds': 8, 'pair:iter+iter': 20,
               'pair:iter+cse': 20, 'pair:cse+iter': 20, 'pair:cse+cse': 20, 'pair:plain+iter': 10,
               'pair:cse+plain': 10},
-    'thorough': {'schedules': 8000, 'distinct_interleavings': 3000, 'fresh_thread_ops': 400,
-                 'stress_rounds': 100, 'pair:cse+cse': 100, 'pair:plain+iter': 50},
+    'thorough': {'schedules': 8000, 'distinct_interleavings': 3000, 'fresh_thread_ops': 22,
+                 'stress_rounds': 60, 'pair:cse+cse': 50, 'pair:plain+iter': 50, 'pair:iter+iter': 50,
+                 'pair:cse+iter': 50, 'pair:iter+cse': 50},
 }
 ASSUMPTIONS = ['preemption is enumerated at cell-evaluation granularity; below it only the randomised stress '
                'tier (GIL switch interval + line-level yield injection) reaches',
